@@ -78,6 +78,12 @@ class Report:
             self.findings.append(f)
 
     def check_floors(self):
+        if self.findings:
+            # a report that already names violations is not passing vacuously; floors are only noted
+            for r in self.rules:
+                if r.instances < r.floor and r.findings == 0:
+                    print(f"note: rule {r.name} decided {r.instances} instance(s), floor {r.floor}")
+            return
         for r in self.rules:
             # a rule that already reports a finding is not passing vacuously
             if r.instances < r.floor and r.findings == 0:
